@@ -64,6 +64,8 @@ var menu = []ser{
 	{"c", "many", manyTags, "", []float64{6}},
 	{"g", "a", []string{"a/b:c d"}, "", []float64{10}},
 	{"c", "Z", []string{"unnamed:u", "x", "peer:10.0.0.1:8080"}, "src2", []float64{9}},
+	{"g", "ev", []string{"e:", "k:v"}, "h", []float64{4}},                                   // a tag with an empty value
+	{"ms", "th9", append([]string{"gsd_histogram:1_5"}, manyTags[:9]...), "h", []float64{3, 0.5}}, // histogram buckets on a series that already has ten tags
 }
 
 type mapSpec struct {
@@ -746,9 +748,14 @@ func checkTagsHost(kind string, s ser, e entry) string {
 			return "tags present although tags are disabled"
 		}
 	case "cloudwatch":
-		n := len(s.Tags)
-		if n > 10 {
-			n = 10
+		n, limit := len(s.Tags), 10 // CloudWatch takes ten dimensions; a histogram bucket's label needs one of them
+		for _, x := range e.Tags {
+			if strings.HasPrefix(x, "le=") {
+				limit = 9
+			}
+		}
+		if n > limit {
+			n = limit
 		}
 		for _, t := range s.Tags[:n] {
 			w := t + "=set"
